@@ -70,6 +70,7 @@ func checkC08(r *Run) propMeta {
 	}
 	checkStackPrimitives(r)
 	checkChildAccessorsGuarded(r)
+	checkDiscriminatorsNonNil(r)
 	r.Floor("C08-R9-stack-primitive-total", 2)
 	r.Floor("C08-R1-push-pop", 80)
 
